@@ -40,6 +40,10 @@ def call(eng, st, canon, node, guard):
     if canon == "len":
         USED.add("len")
         a = args[0]
+        if sx.is_str(a):
+            n = sx.STRLEN(a)
+            st.pc.append(n >= 0)
+            return n
         if isinstance(a, Ref) and eng.is_set(st, a):
             USED.add("len(set) = cardinality (uninterpreted, >= 0)")
             sarr = eng.sel(st, a)
@@ -57,6 +61,8 @@ def call(eng, st, canon, node, guard):
         if isinstance(a, sx.Vec):
             return a.length
         raise Unsupported("len of %r" % (a,))
+    if canon == "set" and not args:
+        return PyObj("opaqueset", None)
     if canon in ("min", "max") and len(args) == 2:
         a, b = to_z3(args[0]), to_z3(args[1])
         if z3.is_int(a) and z3.is_real(b):
@@ -172,11 +178,47 @@ def call(eng, st, canon, node, guard):
 
 def method(eng, st, recv, meth, node, guard):
     args = [eng.ev(a, st, guard) for a in node.args]
+    if sx.is_str(recv):
+        USED.add("str.%s" % meth)
+        if meth in ("strip", "replace", "lower", "upper", "lstrip", "rstrip"):
+            return sx.fresh("str", sx.STR)
+        if meth == "split":
+            return PyObj("strlist", None)
+        if meth in ("endswith", "startswith", "isdigit"):
+            return sx.fresh("strpred", sx.B)
+        if meth in ("find", "rfind"):
+            # integer contract: -1, or an index within [start, end) (defaults 0, len); arguments must be non-negative
+            n = sx.STRLEN(recv)
+            st.pc.append(n >= 0)
+            lo = to_z3(args[1]) if len(args) > 1 else z3.IntVal(0)
+            hi = to_z3(args[2]) if len(args) > 2 else n
+            fn = eng.fn_key.split("::")[-1]
+            if len(args) > 1:
+                eng.emit("%s.safety.find_args@+%s" % (fn, node.lineno - eng.fndef.lineno), "safety", st,
+                         z3.And(lo >= 0, hi >= 0), node.lineno, guard, note="find/rfind bounds are non-negative (no wrap-around)")
+            r = sx.fresh(meth, I)
+            st.pc.append(z3.Or(r == -1, z3.And(lo <= r, r < hi, r < n)))
+            if len(args) == 1 and isinstance(args[0], PyObj) and args[0].kind == "str":
+                # full-range searches of the same character in the same string: find <= rfind, found together
+                key = (recv.get_id(), args[0].val)
+                memo = eng.__dict__.setdefault("find_memo", {})
+                other = memo.get(key, {}).get("rfind" if meth == "find" else "find")
+                memo.setdefault(key, {})[meth] = r
+                if other is not None:
+                    f_, rf_ = (r, other) if meth == "find" else (other, r)
+                    st.pc.append(z3.And((f_ == -1) == (rf_ == -1), z3.Implies(f_ != -1, f_ <= rf_)))
+            return r
+        raise Unsupported("string method %s" % meth)
+    if isinstance(recv, PyObj) and recv.kind in ("opaqueset", "opaquelist") and meth in ("add", "append"):
+        return PyObj("none")
     if meth == "append" and isinstance(recv, Ref) and st.heap[recv.base].kind == "list" and not recv.prefix:
         USED.add("list.append")
         ho = st.heap[recv.base]
         v = args[0]
         if isinstance(v, (Ref, tuple, PyObj)):
+            if ho.elem is None and ho.arr is None:      # items not modelled (objects): the list only has a length
+                st.heap[recv.base] = ho.replace(shape=(ho.shape[0] + 1,))
+                return PyObj("none")
             raise Unsupported("append of a non-scalar")
         if ho.elem is None:
             kind = "float" if sx.is_fl(v) else ("real" if sx.is_real(v) else ("bool" if isinstance(v, bool) or (sx.is_z3(v) and z3.is_bool(v)) else "int"))
